@@ -79,6 +79,31 @@ CHECKS = {
             "under the data directory is compared byte for byte.",
             "reference values are traces of everything that produced them",
             "5/C04"),
+    "C13": ("seqmc", "exploration",
+            "exhaustive enumeration of bindings x spellings x {direct call, call seen in source} with all-pairs signature comparison",
+            "For functions with 1-3 (thorough 4) parameters and every default pattern over {0, False, '', None, 1, 'x'}, every tuple of values "
+            "and every spelling of it (positional prefixes, keywords in every order, defaults omitted or explicit) is evaluated as a direct "
+            "dds.keep call with values and as a literal call site inside an evaluated wrapper; the signature handed to the store is "
+            "captured. All spellings of a binding must share one signature and two bindings that differ (canonical form) must not.",
+            "documented identifications (bool=int) carry no demand",
+            "5/C13"),
+    "C10": ("progmc", "fault_enumeration",
+            "exhaustive fault enumeration: every function of every composite program as the failing one x exception class x follow-up",
+            "Every composite program (<= 3 kept nodes) x entry x every function as the failing one (armed through a module dds does not "
+            "track) x exception classes incl. KeyboardInterrupt and a user BaseException x follow-up evaluation {same pipeline disarmed, "
+            "still armed, another pipeline} x stores: the exception object that leaves dds must be the armed one, no blob may appear "
+            "under the signature of a node that did not complete, no path may change, dds must accept the next evaluation, which must "
+            "return reference values and execute only nodes whose blob is absent.",
+            "the fault is raised at the start of the chosen function",
+            "5/C10"),
+    "C11": ("progmc", "exploration",
+            "exhaustive enumeration of ill-formed program shapes (path lists in every order and placement, call cycles, nested eval)",
+            "Every ordered list of 2-3 (thorough 4) kept paths over a small segment alphabet containing a prefix pair or a near miss, under "
+            "three placements; every call cycle of length 1-3 (thorough 4) with every edge kind per edge, entered at every node; dds.eval "
+            "nested 1-4 levels deep behind each edge kind. Expected: the matching error code iff the program is ill-formed, an empty "
+            "execution log and an unchanged store.",
+            "overlap = strict segment-prefix relation; near misses must be accepted",
+            "5/C11"),
 }
 
 NOT_YET = {}
